@@ -148,7 +148,101 @@ def r2(ctx):
             ctx.bad("R2", f"{f.site()}::property", f"property `{p}` returns `{U(r[0].value) if r else None}`, not the stored field")
 
 
+def _index_loop_as_zip(fnode, cols):
+    """for r in np.flatnonzero(M): .. S[r] .. T[r, :] .. O[r] ..      (r read only as the row index of the input columns `cols`, which the
+    loop does not store into)   ->   for s__r, t__r, o__r in zip(S[M], T[M, :], O[M]): .. s__r .. t__r .. o__r ..
+    The k-th position of flatnonzero(M) selects the k-th row of X[M] for every array X: the same rows in the same order.
+    Returns a rewritten copy, or None when the function has no such loop."""
+    import copy as _copy
+    node = _copy.deepcopy(fnode)
+    env = single_defs(node)
+    for lp in [n for n in walk_own(node) if isinstance(n, ast.For) and isinstance(n.target, ast.Name) and not n.orelse]:
+        it = inline(lp.iter, env) if isinstance(lp.iter, ast.Name) else lp.iter
+        M = None
+        if isinstance(it, ast.Call) and call_name(it) == "np.flatnonzero" and len(it.args) == 1:
+            M = it.args[0]
+        elif isinstance(it, ast.Subscript) and isinstance(it.value, ast.Call) and call_name(it.value) in ("np.where", "np.nonzero") and U(it.slice) == "0" and len(it.value.args) == 1:
+            M = it.value.args[0]
+        if M is None:
+            continue
+        r = lp.target.id
+
+        # E[r] with E a local bound once to an element-wise expression of the columns (`is_control = T == SENTINEL`): the expression of the row
+        class Push(ast.NodeTransformer):
+            def visit_Subscript(self, n):
+                self.generic_visit(n)
+                if isinstance(n.slice, ast.Name) and n.slice.id == r and isinstance(n.value, ast.Name) and n.value.id in env and n.value.id not in cols and isinstance(n.ctx, ast.Load):
+                    d = env[n.value.id]
+                    if isinstance(d, (ast.Compare, ast.BinOp, ast.UnaryOp)) and not any(isinstance(y, (ast.Call, ast.Subscript, ast.Attribute)) for y in ast.walk(d)) \
+                            and all(y.id in cols or y.id.isupper() for y in ast.walk(d) if isinstance(y, ast.Name)):
+                        class Row(ast.NodeTransformer):
+                            def visit_Name(self, y):
+                                if y.id in cols:
+                                    return ast.Subscript(value=y, slice=ast.Name(id=r, ctx=ast.Load()), ctx=ast.Load())
+                                return y
+                        return ast.copy_location(Row().visit(_copy.deepcopy(d)), n)
+                return n
+        lp.body = [Push().visit(b) for b in lp.body]
+        ast.fix_missing_locations(lp)
+        par = enclosing_map(lp)
+        uses = [x for b in lp.body for x in ast.walk(b) if isinstance(x, ast.Name) and x.id == r]
+        plan, ok = {}, bool(uses)
+        for u in uses:
+            p_ = par.get(u)
+            sub = p_ if isinstance(p_, ast.Subscript) and p_.slice is u else (par.get(p_) if isinstance(p_, ast.Tuple) and isinstance(par.get(p_), ast.Subscript) and par[p_].slice is p_ and p_.elts[0] is u else None)
+            if sub is None or not (isinstance(sub.value, ast.Name) and sub.value.id in cols) or not isinstance(sub.ctx, ast.Load):
+                ok = False
+                break
+            if isinstance(sub.slice, ast.Tuple) and not (len(sub.slice.elts) == 2 and U(sub.slice.elts[1]) == ":"):
+                ok = False
+                break
+            plan[id(sub)] = sub.value.id
+        stored = {x.id for b in lp.body for x in ast.walk(b) if isinstance(x, ast.Name) and isinstance(x.ctx, ast.Store)}
+        if not ok or stored & (set(cols) | {r}) or set(plan.values()) != set(cols):
+            continue
+        names = {c: f"{c}__r" for c in cols}
+
+        class T(ast.NodeTransformer):
+            def visit_Subscript(self, n):
+                if id(n) in plan:
+                    return ast.copy_location(ast.Name(id=names[plan[id(n)]], ctx=ast.Load()), n)
+                return self.generic_visit(n)
+        lp.body = [T().visit(b) for b in lp.body]
+        lp.target = ast.Tuple(elts=[ast.Name(id=names[c], ctx=ast.Store()) for c in cols], ctx=ast.Store())
+        args = [parse_expr(f"{c}[{U(M)}, :]") if two_d else parse_expr(f"{c}[{U(M)}]") for c, two_d in zip(cols, (False, True, False))]
+        lp.iter = ast.Call(func=ast.Name(id="zip", ctx=ast.Load()), args=args, keywords=[])
+        ast.fix_missing_locations(node)
+        return node
+    return None
+
+
+class _canonical_synergy:
+    """while the synergy rules run, calculate_synergy is read with its row loop over positions rewritten as the zip of the three columns"""
+    def __init__(self, ctx):
+        self.ctx = ctx
+        self.saved = None
+
+    def __enter__(self):
+        import copy as _copy
+        f = self.ctx.fn("synergy.calculate_synergy")
+        node = _index_loop_as_zip(f.node, f.params[:3]) if len(f.params) >= 3 else None
+        if node is not None:
+            self.saved = (f, f.node)
+            f.node = node
+        return self
+
+    def __exit__(self, *a):
+        if self.saved is not None:
+            self.saved[0].node = self.saved[1]
+        return False
+
+
 def r3(ctx):
+    with _canonical_synergy(ctx):
+        _r3(ctx)
+
+
+def _r3(ctx):
     C04.r7(ctx, rule="R3", sites=[s for s in C04.ROW_CLASS_SITES if s[0] in ("data.create_single_treatment_effect_map", "synergy.calculate_synergy")])
     f = ctx.fn("data.create_single_treatment_effect_map")
     sids, tids, obs = f.params
@@ -328,6 +422,11 @@ def r3(ctx):
 
 
 def r4(ctx):
+    with _canonical_synergy(ctx):
+        _r4(ctx)
+
+
+def _r4(ctx):
     """synergy rows: (sample, treatments, observation) of the non-single-agent rows; per row the effects of its non-control
     treatments are looked up; strict raises on a missing one, lenient skips the whole row; emitted value = prod(effects) - obs"""
     from engine import rowstream as RS
@@ -410,11 +509,12 @@ def r4(ctx):
     il = inner[0]
     ienv = {n.targets[0].id: n.value for n in il.body if isinstance(n, ast.Assign) and isinstance(n.targets[0], ast.Name)}
     conds = stmt_conditions(il.body)
+    alias_env = {k: v for k, v in lenv.items() if isinstance(v, ast.Name) and v.id in (sid_var, tids_var, obs_var)}      # other names of the row's fields
 
     def classify(cs):
         present = strict = None
         for t, pol in cs:
-            tt = inline(t, ienv)
+            tt = inline(inline(t, ienv), alias_env)
             if isinstance(tt, ast.Compare) and len(tt.ops) == 1 and isinstance(tt.ops[0], (ast.In, ast.NotIn)) and U(tt.comparators[0]) == MAP:
                 present = pol if isinstance(tt.ops[0], ast.In) else (not pol)
                 key = U(tt.left).replace(" ", "")
@@ -437,7 +537,7 @@ def r4(ctx):
             bad.append("the membership test is not keyed by (row sample, treatment)")
             continue
         if isinstance(st_, ast.Expr) and isinstance(st_.value, ast.Call) and attr_tail(st_.value) == "append":
-            src = U(inline(st_.value.args[0], ienv)).replace(" ", "")
+            src = U(inline(inline(st_.value.args[0], ienv), alias_env)).replace(" ", "")
             if present is True and src in (f"{MAP}[({sid_var},{U(il.target)})]", f"{MAP}[{sid_var},{U(il.target)}]"):
                 appends.append(U(st_.value.func.value))
             else:
@@ -463,6 +563,9 @@ def r4(ctx):
         # idiom A: number of effects differs from number of treatments -> continue
         if N.b(tt) in (N.b(parse_expr(f"len({ids_iter}) != len({coll})")), N.b(parse_expr(f"len({coll}) != len({ids_iter})")),
                        N.b(parse_expr(f"len({coll}) < len({ids_iter})"), integer=True)) and pol is False:
+            skip_ok = True
+        # fewer effects than treatments (there are never more: one append per treatment at most)
+        if N.b(tt, integer=True) == N.b(parse_expr(f"len({coll}) < len({ids_iter})"), integer=True) and pol is False:
             skip_ok = True
         if N.b(tt) in (N.b(parse_expr(f"len({ids_iter}) == len({coll})")),) and pol is True:
             skip_ok = True
